@@ -16,7 +16,8 @@ SCHEMA_NAMES = ["Pet", "Owner", "Order", "Tag", "Event", "Address", "Invoice", "
 PREFIX_NAMES = ["User", "UserGroup", "OrderItem", "PetItem", "TagProperty"]
 PROP_NAMES = ["id", "name", "createdAt", "count", "is_active", "tags", "owner", "kind", "price", "note", "items",
               "display-name", "X-Code", "class", "type", "userId", "user_id", "meta", "ratio", "birthday", "payload"]
-TAGS = ["Users", "Pets", "Orders", "admin", "Data Sources", "v2", "Billing v1", "Billing v2", "Pet", "Order", "tag"]   # the last three: tag module stem == a model's module stem
+TAGS = ["Users", "Pets", "Orders", "admin", "Data Sources", "v2", "Billing v1", "Billing v2", "Pet", "Order", "tag",   # tag module stem == a model's module stem
+        "import", "global", "config"]   # keywords / a name APIClient uses itself: the attribute must stay usable (import_, config_)
 TAG_VARIANTS = {"Users": ["users", "USERS"], "Data Sources": ["data_sources", "DataSources", "data-sources"]}
 SEGS = ["users", "pets", "orders", "items", "v1", "reports", "user-groups", "things"]
 PVARS = ["id", "user_id", "petId", "order-id", "name"]
